@@ -668,6 +668,16 @@ pub fn run(ctx: &Ctx) -> Report {
     }
     r.set("trade_enable_swaps_checked", te);
     r.guard("trade_enable_swaps_checked", te);
+    // ... and through the two-hop instructions (either leg may be the pool that has not opened yet): judged by C17's oracle in
+    // its world with a pool that opens 40 s after the start
+    if r.violations.is_empty() {
+        let (n, bad) = super::c17::trade_enable_part();
+        r.set("trade_enable_two_hop_variants_checked", n);
+        r.guard("trade_enable_two_hop_variants_checked", n);
+        if let Some((k, d, c)) = bad {
+            r.violation(k, d, c);
+        }
+    }
 
     // ---- Part A ----
     // quick: one pass, full alphabet (swaps, clock steps, set_adaptive_fee_constants), depth 3.
@@ -774,6 +784,9 @@ pub fn run(ctx: &Ctx) -> Report {
 }
 
 pub fn replay(case: &Value) -> Result<(), String> {
+    if case["kind"].as_str() == Some("twohop_trade_enable") {
+        return super::c17::replay_trade_enable(case);
+    }
     if let Some(res) = c14_fn::replay_fn(case) {
         return res;
     }
